@@ -1,6 +1,6 @@
 """C02 - simulation honours every wake-up at exactly its time, in order; no phantom cycles."""
 from __future__ import annotations
-from .runner import Result, Violation
+from .runner import Result, Violation, scaled
 from .gen_core import gen_case
 from . import model as M
 from .c03 import classify_with_emulations
@@ -23,7 +23,7 @@ BATCH = 25
 
 
 def generate(rng, tier, seed):
-    n = 500 if tier == "quick" else 8000
+    n = scaled(500 if tier == "quick" else 8000)
     cases = []
     for k in range(n):
         c = gen_case(rng, f"c02_{seed}_{k}", allow_sched=True, max_depth=3 if rng.random() < 0.3 else 2)
